@@ -61,6 +61,27 @@ theorem C01_client_origin (w : Nat) (s : State) (as : List Act) (h0 : ClientMark
       (run s as).host.count = 1 ∧ ∀ c ∈ (run s as).clients, c.connected = true → c.p.count = 1) :=
   client_origin_converges w s as h0 ha
 
+/-- **C01 without the hypothesis "once traffic has drained"**: after any interleaving of a spawn epoch (host origin / client
+origin) or of a despawn history there is a continuation of the replication machinery alone — two fair rounds of
+`entity_removed`, `entity_created`, poll on every peer — after which the conclusion of the theorems above holds -/
+theorem C01_host_origin_total (s : State) (as : List Act) (h0 : HostMarked s) (ha : ∀ a ∈ as, SpawnOnly a) :
+    ∃ more : List Act, (∀ a ∈ more, machinery a = true) ∧
+      (run (run s as) more).host.count = 1 ∧ ∀ c ∈ (run (run s as) more).clients, c.connected = true → c.p.count = 1 :=
+  host_origin_total s as h0 ha
+
+theorem C01_client_origin_total (w : Nat) (s : State) (as : List Act) (h0 : ClientMarked w s)
+    (ha : ∀ a ∈ as, SpawnOnlyW w a) (hw : ∃ c ∈ s.clients, c.id = w) :
+    ∃ more : List Act, (∀ a ∈ more, machinery a = true) ∧
+      (run (run s as) more).host.count = 1 ∧ ∀ c ∈ (run (run s as) more).clients, c.connected = true → c.p.count = 1 :=
+  client_origin_total w s as h0 ha hw
+
+theorem C01_despawns_total (s : State) (as : List Act) (h0 : Live s) (ha : ∀ a ∈ as, NoMark a) :
+    ∃ more : List Act, (∀ a ∈ more, machinery a = true) ∧
+      (((run (run s as) more).host.count = 0 → ∀ c ∈ (run (run s as) more).clients, c.connected = true → c.p.count = 0) ∧
+       (∀ c ∈ (run (run s as) more).clients, c.connected = true → c.p.count = 0 →
+          (run (run s as) more).host.count = 0 ∧ ∀ c' ∈ (run (run s as) more).clients, c'.connected = true → c'.p.count = 0)) :=
+  despawns_total s as h0 ha
+
 /-- the pipeline invariants themselves hold in every reachable state of a spawn epoch -/
 theorem C01_host_origin_invariant (s : State) (as : List Act) (hi : HSp s) (ha : ∀ a ∈ as, SpawnOnly a) :
     HSp (run s as) := hsp_run s as hi ha
